@@ -9,7 +9,9 @@ PROP = 'C05'
 LEVEL = 'fault_enumeration'
 RULE = ('valid seeds (typed random programs + fixed declarations) x catalogue of static-rule violations x applicable sites '
         '(main top level, inside SUB/FUNCTION bodies, inside nested blocks, inside one-line IF) x configs (O0 and O2-g always, '
-        'all six on a rotating sixth); one fault at a time; oracle: rejected with the category of the rule and a position on '
+        'all six on a rotating sixth) + faulty expressions embedded in larger expressions/statements + the near-miss argument '
+        'family (every by-reference location form x argument type x parameter type, arrays, records; the well-typed ones are '
+        'controls that must be accepted); one fault at a time; oracle: rejected with the category of the rule and a position on '
         'an acceptable line, same at every config; the unfaulted seed must be accepted; non-trivial = fault compiled at '
         '>=2 configs; distinct = (catalogue entry, site context, seed shape)')
 ASSUMPTIONS = ['acceptable lines: the injected line(s); either definition for duplicates; any line from the injected one onward '
@@ -18,7 +20,7 @@ REQUIRED_COUNTERS = ['faults_injected', 'positions_checked', 'seeds_accepted']
 CASE_TIMEOUT = 900
 
 PRE = ('TYPE zt\nfa AS INTEGER\nfb AS STRING\nEND TYPE\nDIM zarr(3) AS INTEGER\nDIM zrec AS zt\nCONST zconst% = 5\n'
-       'CONST zcs$ = "abc"\nzlab1:\n10 zn% = 1\n')
+       'CONST zcs$ = "abc"\nzlab1:\n10 zn% = 1\nDIM zdyn(zn% + 2) AS INTEGER\nDIM zdyn2(1 TO zn% + 1, 2) AS LONG\n')
 POST = ('SUB zsubi (p%)\nzsublab: p% = 1\nzlate$ = zcs$\nEND SUB\nFUNCTION zfunci% (p%)\nzfunci% = p%\nEND FUNCTION\n')
 
 T = 'compile:TYPE_MISMATCH'
@@ -67,6 +69,14 @@ CATALOGUE = [
     ('arg-count-builtin', ['zn% = LEN("a", "b")'], ['compile:ARGUMENT_COUNT_MISMATCH'], 'inj', 'mpbi'),
     ('rank-store', ['zarr(1, 2) = 1'], ['compile:WRONG_NUMBER_OF_DIMENSIONS'], 'inj', 'mbi'),
     ('rank-load', ['zn% = zarr(1, 2)'], ['compile:WRONG_NUMBER_OF_DIMENSIONS'], 'inj', 'mbi'),
+    # an array dimensioned with run-time bounds still has a fixed number of dimensions
+    ('rank-store-dynamic', ['zdyn(1, 2) = 1'], ['compile:WRONG_NUMBER_OF_DIMENSIONS'], 'inj', 'mbi'),
+    ('rank-load-dynamic', ['zn% = zdyn(1, 2)'], ['compile:WRONG_NUMBER_OF_DIMENSIONS'], 'inj', 'mbi'),
+    ('rank-store-dynamic2', ['zdyn2(1) = 1'], ['compile:WRONG_NUMBER_OF_DIMENSIONS'], 'inj', 'mbi'),
+    ('rank-load-dynamic2', ['zn% = zdyn2(1, 2, 3)'], ['compile:WRONG_NUMBER_OF_DIMENSIONS'], 'inj', 'mbi'),
+    ('rank-input-dynamic', ['INPUT zdyn(1, 2)'], ['compile:WRONG_NUMBER_OF_DIMENSIONS'], 'inj', 'mb'),
+    ('rank-read-static', ['READ zarr(1, 2)'], ['compile:WRONG_NUMBER_OF_DIMENSIONS'], 'inj', 'mb'),
+    ('rank-arg-dynamic', ['zsubi zdyn(1, 2)'], ['compile:WRONG_NUMBER_OF_DIMENSIONS'], 'inj', 'mbi'),
     ('label-undef-goto', ['GOTO znolabel'], ['compile:LABEL_NOT_DEFINED'], 'inj', 'mpbi'),
     ('label-undef-gosub', ['GOSUB znolabel'], ['compile:LABEL_NOT_DEFINED'], 'inj', 'mpbi'),
     ('label-undef-restore', ['RESTORE znolabel'], ['compile:LABEL_NOT_DEFINED'], 'inj', 'mbi'),
@@ -141,6 +151,39 @@ CATALOGUE = [
     ('syntax-double-eq', ['zn% = = 1'], [S], 'inj', 'mpbi'),
 ]
 
+N_BASE = len(CATALOGUE)
+# faulty *expressions* (value kind n/s, category) embedded in larger expressions and statements: the diagnostic must keep
+# the rule's category and still point at the line of the statement, wherever in the expression tree the fault sits
+EXPR_FAULTS = [
+    ('num-plus-str', '(1 + "a")', 'n', [T]), ('neg-str', '(-"a")', 'n', [T]), ('not-str', '(NOT "a")', 'n', [T]),
+    ('cmp-num-str', '(1 < "a")', 'n', [T]), ('len-num', 'LEN(1)', 'n', [T]), ('func-arg-str', 'zfunci%("a")', 'n', [T]),
+    ('func-args-many', 'zfunci%(1, 2)', 'n', ['compile:ARGUMENT_COUNT_MISMATCH']),
+    ('builtin-args-many', 'LEN("a", "b")', 'n', ['compile:ARGUMENT_COUNT_MISMATCH']),
+    ('rank', 'zarr(1, 2)', 'n', ['compile:WRONG_NUMBER_OF_DIMENSIONS']),
+    ('rank-dynamic', 'zdyn(1, 2)', 'n', ['compile:WRONG_NUMBER_OF_DIMENSIONS']),
+    ('no-field', 'zrec.nofield', 'n', ['compile:ELEMENT_NOT_DEFINED']),
+    ('literal-range', '32768%', 'n', [S]), ('literal-single', '1E+39', 'n', [S]),
+    ('str-minus-str', '("a" - "b")', 's', [T]), ('chr-str', 'CHR$("a")', 's', [T]), ('mid-args', 'MID$("a")', 's', ['compile:ARGUMENT_COUNT_MISMATCH']),
+    ('str-plus-num', '("a" + 1)', 's', [T]), ('ucase-num', 'UCASE$(5)', 's', [T]),
+]
+EXPR_WRAPS = {
+    'n': [('first3', ['zn% = {E} + zn% + 2']), ('mid3', ['zn% = zn% + {E} + 2']), ('last3', ['zn% = zn% + 2 + {E}']),
+          ('mul4', ['zn% = 2 * {E} * 3 * zn%']), ('and3', ['zn% = zn% AND {E} AND 3']), ('cmp-chain', ['zn% = zn% + {E} < 2 + zn%']),
+          ('call-arg', ['zn% = zfunci%(zn% + {E} + 1)']), ('index', ['zn% = zarr(zn% + {E} + 1)']), ('index-store', ['zarr(1 + {E} + 1) = 2']),
+          ('print-item', ['PRINT zn%; zn% + {E} + 1; 2']), ('parens', ['zn% = (1 + (zn% + ({E})) + 3)']),
+          ('if-cond', ['IF zn% + {E} + 2 THEN zn% = 1']), ('sub-arg', ['zsubi zn% + {E} + 2']),
+          ('for-to', ['FOR zi% = 1 TO zn% + {E} + 2', 'NEXT']), ('case-value', ['SELECT CASE zn%', 'CASE zn% + {E} + 2', 'END SELECT']),
+          ('while-cond', ['WHILE zn% + {E} + 2', 'WEND']), ('abs-arg', ['zn% = ABS(zn% + {E}) * 2 * 3']),
+          ('second-line', ['zn% = 1 : zn% = zn% + {E} + 2'])],
+    's': [('first3', ['zs$ = {E} + zs$ + "y"']), ('mid3', ['zs$ = zs$ + {E} + "y"']), ('last3', ['zs$ = zs$ + "y" + {E}']),
+          ('print-item', ['PRINT zs$; "x" + {E} + "y"']), ('len-arg', ['zn% = LEN(zs$ + {E} + "y") + 1 + 2']),
+          ('cmp', ['IF zs$ + {E} + "y" = "q" THEN zn% = 1']), ('case-value', ['SELECT CASE zs$', 'CASE zs$ + {E} + "y"', 'END SELECT'])],
+}
+for _fn, _fe, _fk, _fc in EXPR_FAULTS:
+    for _wn, _wl in EXPR_WRAPS[_fk]:
+        CATALOGUE.append((f'embed:{_fn}:{_wn}', [x.replace('{E}', _fe) for x in _wl], _fc, 'inj',
+                          'mpb' if len(_wl) > 1 else 'mpbi'))
+
 
 def sites(text):
     """-> list of (line index (0-based) to insert before, context letter)"""
@@ -200,13 +243,78 @@ def gen_cases(tier, seed):
     n = len(CATALOGUE)
     for si in range(nseeds):
         if True:
-            # every entry appears in >= 10 seeds; a seed carries a third of the catalogue
-            ents = [e for e in range(n) if (e + si) % 3 == 0]
+            # every base entry appears in >= 10 seeds; a seed carries a third of the base catalogue and (quick) a twelfth /
+            # (thorough) a third of the embedded-expression entries
+            ents = [e for e in range(N_BASE) if (e + si) % 3 == 0]
+            m = 12 if tier == 'quick' else 3
+            ents += [e for e in range(N_BASE, n) if (e + si) % m == 0]
         cs.append({'seed': seed * 100003 + si, 'per_entry': per_entry, 'all6': si % 6 == 0, 'entries': ents, 'rot': si})
+    from .. import nearmiss
+    nn = len(nearmiss.all_programs())
+    for lo in range(0, nn, 24):
+        cs.append({'nearmiss': True, 'lo': lo, 'hi': min(nn, lo + 24)})
     return cs
 
 
+def run_nearmiss(case):
+    from .. import nearmiss
+    progs_ = nearmiss.all_programs()[case['lo']:case['hi']]
+    st = {'faults_injected': 0, 'positions_checked': 0, 'seeds_accepted': 0, 'seeds_rejected': 0, 'compilations': 0,
+          'entries_hit': [], 'contexts': ['nearmiss'], 'nearmiss_mismatches': 0, 'nearmiss_controls': 0}
+    viol = []
+    shapes = []
+    sample = None
+    for tag, text, must_reject, call_line in progs_:
+        fam = tag.split('|')[0]
+        results = []
+        for cfg in [(0, False), (2, True)]:
+            cr = rt.compile_src(text, cfg[0], cfg[1])
+            st['compilations'] += 1
+            results.append((cfg, cr))
+        shapes.append('nearmiss|' + tag)
+        if len({(cr.status, cr.err_code) for _, cr in results}) > 1:
+            viol.append(V(f'C05:config-dependent:nearmiss-{fam}', f'{tag}: outcomes differ between configs: '
+                          f'{[(rt.cfg_name(cf), cr.brief()) for cf, cr in results]}', text=text, entry=tag))
+            continue
+        cfg, cr = results[0]
+        if cr.status == 'crash':
+            viol.append(V(f'C05:crash:nearmiss-{fam}:{cr.sig}', f'{tag}: {cr.exc}: {cr.msg}', text=text, entry=tag))
+            continue
+        if not must_reject:
+            st['nearmiss_controls'] += 1
+            st['seeds_accepted'] += 1 if cr.status == 'ok' else 0
+            if cr.status != 'ok':
+                viol.append(V(f'C05:valid-rejected:nearmiss-{fam}', f'{tag}: a well-typed call is rejected: {cr.brief()}',
+                              text=text, entry=tag))
+            continue
+        st['nearmiss_mismatches'] += 1
+        st['faults_injected'] += 1
+        st['entries_hit'] = sorted(set(st['entries_hit']) | {'nearmiss-' + fam})
+        if cr.status == 'ok':
+            viol.append(V(f'C05:accepted:nearmiss-{fam}', f'{tag}: the argument and the by-reference parameter disagree in type, '
+                          f'yet the program is accepted (call on line {call_line})', text=text, entry=tag, line=call_line))
+            continue
+        cat = f'{cr.status}:{cr.err_code}'
+        if cat != T:
+            viol.append(V(f'C05:category:nearmiss-{fam}:{cat}', f'{tag}: reported {cat} "{cr.msg}", rule category {T}',
+                          text=text, entry=tag))
+            continue
+        st['positions_checked'] += 1
+        if cr.loc is None or not (0 <= cr.loc <= len(text)):
+            viol.append(V(f'C05:no-position:nearmiss-{fam}', f'{tag}: diagnostic has position {cr.loc}', text=text))
+            continue
+        ln = rt.line_of(text, cr.loc)
+        if ln != call_line:
+            viol.append(V(f'C05:position:nearmiss-{fam}', f'{tag}: the call is on line {call_line}, the diagnostic "{cr.msg}" '
+                          f'points at line {ln}', text=text, entry=tag))
+        if sample is None:
+            sample = {'entry': tag, 'context': 'nearmiss', 'call_line': call_line, 'diagnostic': [cat, cr.msg, ln]}
+    return {'viol': viol, 'stats': st, 'shape': shapes, 'nontrivial': bool(shapes), 'sample': sample}
+
+
 def run_case(case):
+    if case.get('nearmiss'):
+        return run_nearmiss(case)
     r = random.Random(case['seed'])
     text0, script, meta = cases.source_of({'src': 'gen', 'seed': case['seed'],
                                            'opts': {'max_stmts': 4, 'max_depth': 2, 'gosub': False, 'data': False}})
